@@ -194,6 +194,16 @@ pub fn gen_program(r: &mut Rng, with_actor: bool) -> (Env, Option<T>) {
         // the service inline, or given by a definition (whose name may be a reserved word of a target language)
         let body = if !pool.is_empty() && r.coin(1, 3) {
             let i = r.below(pool.len() as u64) as usize; let n = pool.remove(i).to_string();
+            // ... and sometimes a service that refers to itself (a method handing out, or taking, the service)
+            let s = match (&s, r.below(3)) {
+                (T::Serv(ms), 0) | (T::Serv(ms), 1) => {
+                    let mut ms = ms.clone();
+                    let me = T::var(&n);
+                    let f = if r.coin(1, 2) { T::Func(vec![], vec![me], vec![]) } else { T::Func(vec![T::opt(me)], vec![], vec![]) };
+                    ms.push(("me".to_string(), f)); T::serv(ms)
+                }
+                _ => s,
+            };
             env.push((n.clone(), s)); T::var(&n)
         } else { s };
         // sometimes a service constructor, with no, one or two init arguments
